@@ -2,6 +2,7 @@ import I18n.Lemmas.FmtCheckPy
 import I18n.Lemmas.FmtCheckPreimage
 import I18n.Generated.TagSites
 import I18n.Lemmas.FmtCheckProbes
+import I18n.Lemmas.FmtCheckNumbered
 /-!
 # C14 — translations are flagged iff their format arguments disagree
 
@@ -246,6 +247,17 @@ theorem c_reorder_silent (pfx : Extra) (srcLoc dstLoc : List Char) (omittedOk : 
       checkArgsC pfx srcLoc fs dstLoc fd omittedOk = .ok [] :=
   c_same_signature_silent pfx srcLoc dstLoc omittedOk hs hd
     (typesOf_signatureOf_congr hs.global.gapFree hs.global.oneType hd.global.gapFree hd.global.oneType h)
+
+/-- **C, `reorder_silent`, constructive form.**  Take a valid C format string `src` without argument numbers, give every
+    reference (each `*` width, `*` precision and conversion, in the order printf fetches them) its explicit number `1$, 2$, …`
+    (`numberDirs`), and let `dst` be ANY valid string whose directives are those numbered directives in some order, with whatever
+    literal text in between: nothing is flagged. -/
+theorem c_reorder_silent_numbered (pfx : Extra) (srcLoc dstLoc : List Char) (omittedOk : Bool) {src dst : List Item}
+    (hs : Valid src) (hd : Valid dst) (hun : ∀ r ∈ refs src, r.idx = none)
+    (hperm : (dirs dst).Perm (numberDirs 1 (dirs src))) :
+    ∃ fs fd, cParse (render src) = .ok fs ∧ cParse (render dst) = .ok fd ∧
+      checkArgsC pfx srcLoc fs dstLoc fd omittedOk = .ok [] :=
+  c_reorder_silent pfx srcLoc dstLoc omittedOk hs hd (posType_numbered_perm hun hperm)
 
 /-- **`last_int_conv_spec`.**  On an accepted C format string, `get_last_integer_conversion(n)` returns the conversion
     at item `c` iff `1 ≤ n ≤ #arguments`, every use of the last `n` arguments belongs to that one conversion (itself, its
@@ -841,6 +853,14 @@ example : (match cParse "%s has %d files".toList, cParse "%s".toList with
 example : (match cParse "%s has %d files".toList, cParse "%s has %s files".toList with
     | .ok a, .ok c => (checkArgsC pfx0 "msgid".toList a "msgstr".toList c false).map (fun (ts : List TagCall) => ts.map TagCall.name)
     | _, _ => .error .ValueError) = .ok ["c-format-string-argument-type-mismatch"] := by rfl
+/-- the constructive reordering: `%s has %*d files` numbered is `%1$s`, `%3$*2$d`; any order of these is a permutation -/
+example : (numberDirs 1 (dirs [.dir ⟨none, [], .none, .none, .std none 's'⟩, .lit " has ".toList,
+      .dir ⟨none, [], .star none, .none, .std none 'd'⟩, .lit " files".toList])).map Directive.render =
+    ["%1$s".toList, "%3$*2$d".toList] := by rfl
+example : (dirs [Item.dir ⟨some ['3'], [], .star (some ['2']), .none, .std none 'd'⟩, .lit " Dateien in ".toList,
+      .dir ⟨some ['1'], [], .none, .none, .std none 's'⟩]).Perm
+    (numberDirs 1 (dirs [.dir ⟨none, [], .none, .none, .std none 's'⟩, .lit " has ".toList,
+      .dir ⟨none, [], .star none, .none, .std none 'd'⟩, .lit " files".toList])) := List.Perm.swap _ _ _
 /-- the omitted trailing `%d` is tolerated when the caller allows it, a trailing `%s` is not -/
 example : (match cParse "%s: %d".toList, cParse "%s: one".toList with
     | .ok a, .ok c => checkArgsC pfx0 "msgid_plural".toList a "msgstr[0]".toList c true
